@@ -305,6 +305,12 @@ namespace adm {
       node.addOptionalAttribute<TypeDescriptor>(packFormat, "typeLabel", &formatTypeLabel);
       node.addOptionalAttribute<TypeDescriptor>(packFormat, "typeDefinition", &formatTypeDefinition);
       node.addOptionalAttribute<Importance>(packFormat, "importance");
+      node.addOptionalAttribute<AbsoluteDistance>(packFormat, "absoluteDistance");
+      if (auto hoaPackFormat = std::dynamic_pointer_cast<const AudioPackFormatHoa>(packFormat)) {
+        node.addOptionalAttribute<Normalization>(hoaPackFormat, "normalization");
+        node.addOptionalAttribute<ScreenRef>(hoaPackFormat, "screenRef");
+        node.addOptionalAttribute<NfcRefDist>(hoaPackFormat, "nfcRefDist");
+      }
       node.addReferences<AudioChannelFormat, AudioChannelFormatId>(packFormat, "audioChannelFormatIDRef");
       node.addReferences<AudioPackFormat, AudioPackFormatId>(packFormat, "audioPackFormatIDRef");
       // clang-format on
